@@ -47,7 +47,12 @@ func (t *Timer) Set(dur time.Duration, cb func()) error {
 	if err == nil {
 		// TODO error checking here
 		t.slot.Set(ReadEvent, func(error) {
-			_, _ = syscall.Read(t.fd, t.b[:])
+			if _, err := syscall.Read(t.fd, t.b[:]); err != nil {
+				// The timer did not expire: this is a stale readiness event from before it was re-armed in the
+				// same poll cycle. The poller already dropped the one-shot interest, so wait again.
+				_ = t.poller.SetRead(&t.slot)
+				return
+			}
 			cb()
 		})
 		err = t.poller.SetRead(&t.slot)
